@@ -263,10 +263,13 @@ func (state *RuntimeState) webauthnAuthFinish(w http.ResponseWriter, r *http.Req
 		return
 	}
 
+	// A challenge is single use: it is consumed by the first response
+	// checked against it, whatever the outcome.
 	state.Mutex.Lock()
 	localAuth, ok := state.localAuthData[authData.Username]
+	delete(state.localAuthData, authData.Username)
 	state.Mutex.Unlock()
-	if !ok {
+	if !ok || localAuth.ExpiresAt.Before(time.Now()) {
 		http.Error(w, "challenge missing", http.StatusBadRequest)
 		return
 	}
@@ -350,9 +353,6 @@ func (state *RuntimeState) webauthnAuthFinish(w http.ResponseWriter, r *http.Req
 
 	// TODO: disinguish better between the two protocols or just use one
 	//metricLogAuthOperation(getClientType(r), proto.AuthTypeU2F, true)
-	state.Mutex.Lock()
-	delete(state.localAuthData, authData.Username)
-	state.Mutex.Unlock()
 
 	//TODO: distinguish here u2f vs webauthn
 	eventNotifier.PublishAuthEvent(eventmon.AuthTypeU2F, authData.Username)
